@@ -450,4 +450,51 @@ func ZZ_C12_step_Stake() {
 	zzReach("C12.stake.done")
 }
 
+
+// Governance raises the minimum stake (UpdateParam -> ConformStateToParamUpdate): every validator
+// now below the minimum is force-unstaked - once. A validator that is already unstaking (possibly
+// finishing in this very block) keeps its single marker; paused ones lose the paused marker.
+//
+//zz:harness mode=int unwind=80 maxpaths=100000 timebudget=1800 param.committeeshapes=0
+//zz:reach C12.minstake.done C12.minstake.forced
+func ZZ_C12_step_RaiseMinimumStake() {
+	sm, _ := zzFSM([]uint64{5, 10, 20}[zzConcrete(zzInt("height"), 0, 2)])
+	zzProtocol(sm, zzConcrete(zzInt("protocol"), 1, 2))
+	n := zzParam("vals", 2)
+	vals := zzStakingWorld(sm, n)
+	prev, err := sm.GetParams()
+	if err != nil {
+		panic("params")
+	}
+	cur, _ := sm.GetParamsVal()
+	cur.MinimumStakeForValidators = zzN64("newMinValidators")
+	cur.MinimumStakeForDelegates = zzN64("newMinDelegates")
+	if sm.SetParamsVal(cur) != nil {
+		panic("set params")
+	}
+	sm.ResetCaches()
+	zzAssert("C12.minstake.returns-nil", sm.ConformStateToParamUpdate(prev) == nil)
+	extra := []uint64{10, 20}
+	for i := 0; i < n; i++ {
+		v, e := sm.GetValidator(crypto.NewAddress(zzAddr(i)))
+		zzAssert("C12.minstake.nobody-removed", e == nil)
+		if e != nil {
+			continue
+		}
+		if v.UnstakingHeight != 0 && vals[i].UnstakingHeight == 0 {
+			zzReach("C12.minstake.forced")
+			extra = append(extra, v.UnstakingHeight)
+			zzAssert("C12.minstake.only-validators-below-the-new-minimum-are-forced", (v.Delegate && v.StakedAmount < cur.MinimumStakeForDelegates) || (!v.Delegate && v.StakedAmount < cur.MinimumStakeForValidators))
+		}
+		if vals[i].UnstakingHeight != 0 {
+			zzAssert("C12.minstake.already-unstaking-keeps-its-height", v.UnstakingHeight == vals[i].UnstakingHeight)
+		}
+		zzAssert("C12.minstake.stake-untouched", v.StakedAmount == vals[i].StakedAmount)
+	}
+	zzHeights = extra
+	zzInv12(sm, "C12.minstake", n)
+	zzNoWedge(sm, "C12.minstake")
+	zzReach("C12.minstake.done")
+}
+
 var _ = lib.JoinLenPrefix
